@@ -120,6 +120,29 @@ func emitPath(cw *caseWriter, mk func() jsonline.Row, op, path string, val func(
 	}
 	cw.count("path:" + op)
 	cw.emit("path "+before+" "+op+" "+path+" "+valS, true, "path", "C18", before, op, hxs(path), valS, extStr(ext), impl)
+	if op == "get" && pan == "" && !strings.Contains(" "+before, " M") {
+		// the same lookup against the document as the row PRINTS it (rows holding Go maps apart: a Go map is printed
+		// as an object but is not a row one can navigate key by key)
+		var doc, obs string
+		if p := guard(func() {
+			doc = row.String()
+			v, ok := row.GetValueAtPath(path)
+			switch {
+			case !ok:
+				obs = "absent"
+			default:
+				if b, err := v.MarshalJSON(); err == nil {
+					obs = "found " + hxs(string(b))
+				} else {
+					obs = "unprintable"
+				}
+			}
+		}); p != "" {
+			obs = "panic " + strings.ReplaceAll(strings.ReplaceAll(p, "\t", " "), "\n", " ")
+		}
+		cw.count("pathdoc:" + strings.SplitN(obs, " ", 2)[0])
+		cw.emit("pathdoc "+doc+" "+path, true, "pathdoc", "C18", hxs(doc), hxs(path), obs)
+	}
 }
 
 // takenFrom parses a document and returns the Value found at a path of it.
@@ -636,7 +659,13 @@ func genC17(cw *caseWriter, seed uint64, tier string) {
 			rr.SetAtIndex(0, vv)
 			_ = rr.ImportAtKey("new2", vv)
 			useRow(rr)
-			_ = jsonline.NewValueAuto(vv)
+			for _, val := range []jsonline.Value{jsonline.NewValueAuto(vv), jsonline.NewValueString(vv), jsonline.NewValueNumeric(vv), jsonline.NewValueBoolean(vv), jsonline.NewValueBinary(vv),
+				jsonline.NewValueDate(vv), jsonline.NewValueDateTime(vv), jsonline.NewValueTimestamp(vv), jsonline.NewValueHidden(vv), jsonline.NewValueNil(jsonline.Binary, vv)} {
+				_, _ = val.Export()
+				_, _ = val.MarshalJSON()
+				_ = val.String()
+				_ = val.Import(vv)
+			}
 			_ = jsonline.CloneRow(rr)
 			var target mapTarget
 			rr.MapTo(&target)
